@@ -379,3 +379,95 @@ def parse_expr(text: str) -> ast.AST:
         tree = ast.parse(text)
     tree = normalize(tree)
     return tree.body[0].value
+
+
+# ---------------------------------------------------------------------- single-definition locals
+def _pure(e: ast.AST) -> bool:
+    """No call, no await, no comprehension: safe to substitute textually."""
+    return not any(isinstance(x, (ast.Call, ast.Await, ast.Yield, ast.YieldFrom, ast.ListComp, ast.SetComp, ast.DictComp, ast.GeneratorExp, ast.Lambda, ast.NamedExpr)) for x in ast.walk(e))
+
+
+def inline_locals(fn: ast.AST, keep: set[str] | frozenset = frozenset()) -> ast.AST:
+    """A copy of the function in which every local that is assigned exactly once, by a plain `name = <pure expression>`,
+    is replaced by that expression wherever it is read (hoisting a sub-expression into a local, or inlining a local that is
+    used once, then give the same code).  Names in `keep`, parameters and loop variables are left alone."""
+    fn = copy.deepcopy(fn)
+    params = {a.arg for a in fn.args.posonlyargs + fn.args.args + fn.args.kwonlyargs} if hasattr(fn, "args") else set()
+    for _ in range(3):
+        assigns: dict[str, list] = {}
+        other_bind: set[str] = set(params)
+        for n in ast.walk(fn):
+            if isinstance(n, ast.Assign) and len(n.targets) == 1 and isinstance(n.targets[0], ast.Name):
+                assigns.setdefault(n.targets[0].id, []).append(n)
+            elif isinstance(n, (ast.AugAssign, ast.AnnAssign)) and isinstance(n.target, ast.Name):
+                other_bind.add(n.target.id)
+            elif isinstance(n, (ast.For, ast.AsyncFor, ast.comprehension)):
+                other_bind |= {x.id for x in ast.walk(n.target) if isinstance(x, ast.Name)}
+            elif isinstance(n, (ast.With, ast.AsyncWith)):
+                other_bind |= {x.id for i in n.items if i.optional_vars is not None for x in ast.walk(i.optional_vars) if isinstance(x, ast.Name)}
+            elif isinstance(n, ast.ExceptHandler) and n.name:
+                other_bind.add(n.name)
+            elif isinstance(n, ast.Assign):
+                for t in n.targets:
+                    other_bind |= {x.id for x in ast.walk(t) if isinstance(x, ast.Name) and isinstance(x.ctx, ast.Store)}
+        subst = {}
+        for name, defs in assigns.items():
+            if len(defs) == 1 and name not in other_bind and name not in keep and _pure(defs[0].value):
+                # the expression must not read something that is re-bound later in the function (cheap test: its names are params or single-def)
+                reads = {x.id for x in ast.walk(defs[0].value) if isinstance(x, ast.Name)}
+                if name not in reads:
+                    subst[name] = defs[0]
+        if not subst:
+            break
+
+        class Sub(ast.NodeTransformer):
+            depth = 0
+
+            def visit_Name(self, node):
+                if isinstance(node.ctx, ast.Load) and node.id in subst and self.depth < 6:
+                    self.depth += 1
+                    try:
+                        return self.visit(copy.deepcopy(subst[node.id].value))
+                    finally:
+                        self.depth -= 1
+                return node
+
+        class Drop(ast.NodeTransformer):
+            def generic_visit(self, node):
+                super().generic_visit(node)
+                for fld in ("body", "orelse", "finalbody"):
+                    b = getattr(node, fld, None)
+                    if isinstance(b, list) and b and isinstance(b[0], ast.stmt):
+                        nb = [x for x in b if not any(x is d for d in subst.values())]
+                        setattr(node, fld, nb or [ast.Pass()])
+                return node
+
+        fn = Drop().visit(fn)
+        fn = Sub().visit(fn)
+        fn = _Expr().visit(fn)
+        fn = _FlattenJoined().visit(fn)
+    ast.fix_missing_locations(fn)
+    return fn
+
+
+class _FlattenJoined(ast.NodeTransformer):
+    """f'{f"a{x}"}b' -> f'a{x}b'"""
+
+    def visit_JoinedStr(self, node):
+        self.generic_visit(node)
+        vals = []
+        for v in node.values:
+            if isinstance(v, ast.FormattedValue) and v.conversion == -1 and v.format_spec is None and isinstance(v.value, ast.JoinedStr):
+                vals.extend(v.value.values)
+            elif isinstance(v, ast.FormattedValue) and v.conversion == -1 and v.format_spec is None and isinstance(v.value, ast.Constant) and isinstance(v.value.value, str):
+                vals.append(ast.Constant(value=v.value.value))
+            else:
+                vals.append(v)
+        merged = []
+        for v in vals:
+            if isinstance(v, ast.Constant) and merged and isinstance(merged[-1], ast.Constant):
+                merged[-1] = ast.Constant(value=merged[-1].value + v.value)
+            else:
+                merged.append(v)
+        node.values = merged
+        return node
